@@ -859,11 +859,19 @@ impl Inner {
                     return Err(Error::library_go_away(Reason::PROTOCOL_ERROR));
                 }
 
-                stream.key()
+                Some(stream.key())
             }
             None => {
-                proto_err!(conn: "recv_push_promise: initiating stream is in an invalid state");
-                return Err(Error::library_go_away(Reason::PROTOCOL_ERROR));
+                // A stream we reset and have already forgotten (no room among
+                // the remembered reset streams) gets the same treatment: the
+                // PUSH_PROMISE may have raced with our RST_STREAM.
+                let peer = self.counts.peer();
+                if !peer.is_local_init(id) || !self.actions.may_have_forgotten_stream(peer, id) {
+                    proto_err!(conn: "recv_push_promise: initiating stream is in an invalid state");
+                    return Err(Error::library_go_away(Reason::PROTOCOL_ERROR));
+                }
+                parent_is_reset = true;
+                None
             }
         };
 
@@ -887,10 +895,13 @@ impl Inner {
             return Ok(());
         }
 
-        if parent_is_reset {
-            // Nobody can receive the pushed response any more: cancel it.
-            return Err(Error::library_reset(promised_id, Reason::CANCEL));
-        }
+        let parent_key = match parent_key {
+            Some(key) if !parent_is_reset => key,
+            _ => {
+                // Nobody can receive the pushed response any more: cancel it.
+                return Err(Error::library_reset(promised_id, Reason::CANCEL));
+            }
+        };
 
         // Try to handle the frame and create a corresponding key for the pushed stream
         // this requires a bit of indirection to make the borrow checker happy.
